@@ -23,6 +23,7 @@ import (
 	"strings"
 	"sync"
 	"time"
+	"unsafe"
 
 	coreboltvm "github.com/meshplus/bitxhub-core/boltvm"
 	"github.com/meshplus/bitxhub-core/governance"
@@ -32,6 +33,7 @@ import (
 	"github.com/meshplus/bitxhub-kit/types"
 	"github.com/meshplus/bitxhub-model/constant"
 	"github.com/meshplus/bitxhub-model/pb"
+	"github.com/meshplus/bitxhub/internal/model/events"
 	"github.com/meshplus/bitxhub/verifharness/hx"
 )
 
@@ -51,6 +53,7 @@ type setup struct {
 type blockIn struct {
 	Txs     [][]int64 `json:"txs"`
 	Restart []int     `json:"restart"` // per replica: 1 = stop/reopen the node BEFORE this block
+	Pipe    []int     `json:"pipe"`    // per replica (never replica 0): 1 = hand this block AND the next one to the executor back to back, without waiting for the first executed event
 }
 
 type history struct {
@@ -73,12 +76,12 @@ type divergence struct {
 }
 
 type txObs struct {
-	Status   int      `json:"status"`    // 0 success 1 failed
-	TxStatus int      `json:"tx_status"` // receipt.TxStatus
-	Ret      string   `json:"ret"`       // class of receipt.Ret (small enum)
-	SvcEv    [][4]int `json:"svc_ev"`    // SERVICE events carried by the receipt: [chain, svc, available, ordered]
-	Amt      int64    `json:"amt"`       // transfers: the amount actually used (resolves amount code -2)
-	Raw      string   `json:"raw,omitempty"`
+	Status   int     `json:"status"`    // 0 success 1 failed
+	TxStatus int     `json:"tx_status"` // receipt.TxStatus
+	Ret      string  `json:"ret"`       // class of receipt.Ret (small enum)
+	SvcEv    [][]int `json:"svc_ev"`    // SERVICE events carried by the receipt: [chain, svc, available, ordered, then (chain, svc) of every blacklisted source]
+	Amt      int64   `json:"amt"`       // transfers: the amount actually used (resolves amount code -2)
+	Raw      string  `json:"raw,omitempty"`
 }
 
 type blockObs struct {
@@ -162,6 +165,7 @@ type replica struct {
 	nonce     map[string]uint64
 	proposals []string // proposal ids in creation order (from receipts)
 	lastAmt   int64
+	pending   *blockOut // result of the second block of a pair that was delivered back to back
 	extraDirs []string
 }
 
@@ -440,6 +444,9 @@ func (r *replica) buildTx(h *history, op []int64) (pb.Transaction, string) {
 			return hx.BvmTx(k, n, constant.AppchainMgrContractAddr.Address(), "FreezeAppchain", pb.String(chainName(c)), pb.String("r")), "proposal"
 		case 9:
 			return hx.BvmTx(k, n, constant.AppchainMgrContractAddr.Address(), "ActivateAppchain", pb.String(chainName(c)), pb.String("r")), "proposal"
+		case 12: // UpdateService: same name and details, new intro, blacklist = source service extra (chain*16+svc); no proposal
+			return hx.BvmTx(k, n, constant.ServiceMgrContractAddr.Address(), "UpdateService", pb.String(csid), pb.String("name-"+csid),
+				pb.String(fmt.Sprintf("intro-%d", extra)), pb.String(fullSvc(extra/16, extra%16)), pb.String("details"), pb.String("r")), ""
 		case 11: // UpdateAppchain by its admin with two illegal new admin addresses
 			return hx.BvmTx(k, n, constant.AppchainMgrContractAddr.Address(), "UpdateAppchain", pb.String(chainName(c)), pb.String("name-"+chainName(c)),
 				pb.String("desc"), pb.Bytes(nil), pb.String(hx.Addr(k).String()+",zz-bad-admin-a,zz-bad-admin-b"), pb.String("r")), "proposal"
@@ -684,7 +691,19 @@ func observe(c *hx.Chain, h *history, height uint64, rs []*pb.Receipt, meta *pb.
 			if ev.EventType == pb.Event_SERVICE {
 				s := &servicemgr.Service{}
 				if json.Unmarshal(ev.Data, s) == nil {
-					t.SvcEv = append(t.SvcEv, [4]int{int(parseNum(s.ChainID, "chain")), int(parseNum(s.ServiceID, "svc")), b2i(s.IsAvailable()), b2i(s.Ordered)})
+					e := []int{int(parseNum(s.ChainID, "chain")), int(parseNum(s.ServiceID, "svc")), b2i(s.IsAvailable()), b2i(s.Ordered)}
+					var bl []string
+					for p := range s.Permission {
+						bl = append(bl, p)
+					}
+					sort.Strings(bl)
+					for _, p := range bl {
+						q := strings.Split(p, ":")
+						if len(q) == 3 {
+							e = append(e, int(parseNum(q[1], "chain")), int(parseNum(q[2], "svc")))
+						}
+					}
+					t.SvcEv = append(t.SvcEv, e)
 				}
 			}
 		}
@@ -712,6 +731,171 @@ func trunc(s string) string {
 		return s[:400] + fmt.Sprintf("...(%d bytes, sha256 %s)", len(s), hexOf([]byte(s))[:16])
 	}
 	return s
+}
+
+const skipValue = "\x00not-observed"
+
+type blockOut struct {
+	fields map[string]string
+	obs    blockObs
+	oracle string
+}
+
+type builtBlock struct {
+	txs      []pb.Transaction
+	kinds    []string
+	amts     []int64
+	expected []int
+	sigErr   map[string]bool
+}
+
+func (r *replica) build(h *history, bi int) *builtBlock {
+	b := h.Blocks[bi]
+	bb := &builtBlock{sigErr: map[string]bool{}, amts: make([]int64, len(b.Txs))}
+	if bi == 0 {
+		for _, ch := range h.Setup.Chains {
+			r.c.SeedAppchain(chainName(int64(ch)), "", "", governance.GovernanceAvailable)
+		}
+		for _, s := range h.Setup.Services {
+			st := governance.GovernanceAvailable
+			switch s[3] {
+			case 1:
+				st = governance.GovernanceFrozen
+			case 2:
+				continue
+			}
+			seedService(r.c, chainName(int64(s[0])), svcName(int64(s[1])), s[2] != 0, st)
+		}
+	}
+	for j, op := range b.Txs {
+		tx, kind := r.buildTx(h, op)
+		bb.txs = append(bb.txs, tx)
+		bb.kinds = append(bb.kinds, kind)
+		if op[0] == 1 {
+			bb.amts[j] = op[3]
+			if kind == "amt" {
+				bb.amts[j] = r.lastAmt
+			}
+		}
+	}
+	// deterministic oracle for the signature fan-out: the refused set must be exactly the
+	// transactions whose VerifySignature() fails when called one by one (same objects, before execution)
+	for j, tx := range bb.txs {
+		if err := tx.VerifySignature(); err != nil {
+			bb.expected = append(bb.expected, j)
+			bb.sigErr[err.Error()] = true
+		}
+	}
+	return bb
+}
+
+// blockCh reads hx.Chain's own (unexported) executed-event channel: blocks delivered back to back
+// must be collected from the same subscription hx.ExecBlock uses, otherwise its buffer fills up.
+func blockCh(c *hx.Chain) chan events.ExecutedEvent {
+	f := reflect.ValueOf(c).Elem().FieldByName("blockCh")
+	return *(*chan events.ExecutedEvent)(unsafe.Pointer(f.UnsafeAddr()))
+}
+
+// deliver hands the blocks to the executor back to back (consensus faster than execution) and
+// then collects their executed events.
+func deliver(c *hx.Chain, groups [][]pb.Transaction, deadline time.Duration) []*events.ExecutedEvent {
+	h := c.Height()
+	for i, txs := range groups {
+		c.NextTime += 1_000_000_000
+		block := &pb.Block{
+			BlockHeader:  &pb.BlockHeader{Version: []byte("1.0.0"), Number: h + 1 + uint64(i), Timestamp: c.NextTime},
+			Transactions: &pb.Transactions{Transactions: txs},
+		}
+		c.Exec.ExecuteBlock(&pb.CommitEvent{Block: block, LocalList: make([]bool, len(txs))})
+	}
+	ch := blockCh(c)
+	var evs []*events.ExecutedEvent
+	for range groups {
+		select {
+		case ev := <-ch:
+			e := ev
+			evs = append(evs, &e)
+		case <-time.After(deadline):
+			return evs
+		}
+	}
+	if sl, ok := c.Ledger.StateLedger.(interface{ VerifLoadedAccounts() int }); ok {
+		for i := 0; i < 4000 && sl.VerifLoadedAccounts() != 0; i++ {
+			time.Sleep(500 * time.Microsecond)
+		}
+	}
+	return evs
+}
+
+func (r *replica) finish(h *history, bb *builtBlock, height uint64, postState bool) (*blockOut, string) {
+	f, rs, meta, err := blockFields(r.c, height)
+	if err != nil {
+		return nil, err.Error()
+	}
+	for j, kind := range bb.kinds {
+		if kind == "proposal" && j < len(rs) && rs[j].Status == pb.Receipt_SUCCESS {
+			var gr governance.GovernanceResult
+			if json.Unmarshal(rs[j].Ret, &gr) == nil && gr.ProposalID != "" {
+				r.proposals = append(r.proposals, gr.ProposalID)
+			}
+		}
+	}
+	// refused = FAILED with a signature-error text; a transaction whose signature AND proof are
+	// both invalid carries the proof error instead (verifyProofs runs after verifySign and
+	// overwrites invalidTx[i]), which counts as refused for a transaction the oracle expects
+	isExp := map[int]bool{}
+	for _, j := range bb.expected {
+		isExp[j] = true
+	}
+	var refused []int
+	for j, rc := range rs {
+		if rc.Status != pb.Receipt_FAILED {
+			continue
+		}
+		if bb.sigErr[string(rc.Ret)] || (isExp[j] && strings.Contains(string(rc.Ret), "proof")) {
+			refused = append(refused, j)
+		}
+	}
+	f["sig_refused"] = fmt.Sprint(refused)
+	if !postState {
+		// the state after this block can no longer be read: the next block is already executed
+		f["state_dump"], f["balances"] = skipValue, skipValue
+	}
+	o := observe(r.c, h, height, rs, meta)
+	for j := range o.Txs {
+		if j < len(bb.amts) {
+			o.Txs[j].Amt = bb.amts[j]
+		}
+	}
+	return &blockOut{fields: f, obs: o, oracle: fmt.Sprint(bb.expected)}, ""
+}
+
+// runBlocks executes block bi (and, when pipe, block bi+1 back to back with it; its result is
+// parked in r.pending).
+func (r *replica) runBlocks(h *history, bi int, pipe bool) (*blockOut, string) {
+	b1 := r.build(h, bi)
+	if !pipe {
+		ev := r.c.ExecBlock(b1.txs, false, 20*time.Second)
+		if ev == nil {
+			return nil, "not executed within the deadline"
+		}
+		return r.finish(h, b1, ev.Block.BlockHeader.Number, true)
+	}
+	b2 := r.build(h, bi+1)
+	evs := deliver(r.c, [][]pb.Transaction{b1.txs, b2.txs}, 30*time.Second)
+	if len(evs) != 2 {
+		return nil, "pair not executed within the deadline"
+	}
+	o1, e := r.finish(h, b1, evs[0].Block.BlockHeader.Number, false)
+	if e != "" {
+		return nil, e
+	}
+	o2, e := r.finish(h, b2, evs[1].Block.BlockHeader.Number, true)
+	if e != "" {
+		return nil, e
+	}
+	r.pending = o2
+	return o1, ""
 }
 
 func runHistory(h *history) (out output) {
@@ -802,103 +986,27 @@ func runHistory(h *history) (out output) {
 						errs[i] = fmt.Sprintf("panic: %v", e)
 					}
 				}()
-				if i < len(b.Restart) && b.Restart[i] != 0 {
-					if err := r.c.Restart(); err != nil {
-						errs[i] = fmt.Sprintf("restart replica %d before block %d: %v", i, bi, err)
+				var res *blockOut
+				if r.pending != nil {
+					res, r.pending = r.pending, nil
+				} else {
+					if i < len(b.Restart) && b.Restart[i] != 0 {
+						if err := r.c.Restart(); err != nil {
+							errs[i] = fmt.Sprintf("restart replica %d before block %d: %v", i, bi, err)
+							return
+						}
+					}
+					pipe := i > 0 && i < len(b.Pipe) && b.Pipe[i] != 0 && bi+1 < len(h.Blocks)
+					var e string
+					res, e = r.runBlocks(h, bi, pipe)
+					if e != "" {
+						errs[i] = fmt.Sprintf("replica %d block %d: %s", i, bi, e)
 						return
 					}
 				}
-				var txs []pb.Transaction
-				if bi == 0 {
-					for _, ch := range h.Setup.Chains {
-						r.c.SeedAppchain(chainName(int64(ch)), "", "", governance.GovernanceAvailable)
-					}
-					for _, s := range h.Setup.Services {
-						st := governance.GovernanceAvailable
-						switch s[3] {
-						case 1:
-							st = governance.GovernanceFrozen
-						case 2:
-							continue
-						}
-						seedService(r.c, chainName(int64(s[0])), svcName(int64(s[1])), s[2] != 0, st)
-					}
-					for _, f := range h.Setup.Fund {
-						k := acctKey(100)
-						txs = append(txs, hx.TransferTx(k, r.nextNonce(k), hx.Addr(acctKey(f[0])), strconv.FormatInt(f[1], 10)))
-					}
-				}
-				nfund := len(txs)
-				var kinds []string
-				amts := make([]int64, len(b.Txs))
-				for j, op := range b.Txs {
-					tx, kind := r.buildTx(h, op)
-					txs = append(txs, tx)
-					kinds = append(kinds, kind)
-					if op[0] == 1 {
-						amts[j] = op[3]
-						if kind == "amt" {
-							amts[j] = r.lastAmt
-						}
-					}
-				}
-				// deterministic oracle for the signature fan-out: the refused set must be exactly the
-				// transactions whose VerifySignature() fails when called one by one
-				var expected []int
-				sigErr := map[string]bool{}
-				for j, tx := range txs {
-					if err := tx.VerifySignature(); err != nil {
-						expected = append(expected, j)
-						sigErr[err.Error()] = true
-					}
-				}
-				ev := r.c.ExecBlock(txs, false, 20*time.Second)
-				if ev == nil {
-					errs[i] = fmt.Sprintf("replica %d: block %d not executed within the deadline", i, bi)
-					return
-				}
-				height := ev.Block.BlockHeader.Number
-				f, rs, meta, err := blockFields(r.c, height)
-				if err != nil {
-					errs[i] = err.Error()
-					return
-				}
-				// bookkeeping: proposal ids created in this block
-				for j, kind := range kinds {
-					if kind == "proposal" && nfund+j < len(rs) && rs[nfund+j].Status == pb.Receipt_SUCCESS {
-						var gr governance.GovernanceResult
-						if json.Unmarshal(rs[nfund+j].Ret, &gr) == nil && gr.ProposalID != "" {
-							r.proposals = append(r.proposals, gr.ProposalID)
-						}
-					}
-				}
-				// refused = FAILED with a signature-error text; a transaction whose signature AND proof are
-				// both invalid carries the proof error instead (verifyProofs runs after verifySign and
-				// overwrites invalidTx[i]), which counts as refused for a transaction the oracle expects
-				isExp := map[int]bool{}
-				for _, j := range expected {
-					isExp[j] = true
-				}
-				var refused []int
-				for j, rc := range rs {
-					if rc.Status != pb.Receipt_FAILED {
-						continue
-					}
-					if sigErr[string(rc.Ret)] || (isExp[j] && strings.Contains(string(rc.Ret), "proof")) {
-						refused = append(refused, j)
-					}
-				}
-				f["sig_refused"] = fmt.Sprint(refused)
-				sigOracle[i] = fmt.Sprint(expected)
-				vals[i] = f
-				o := observe(r.c, h, height, rs, meta)
-				o.Txs = o.Txs[nfund:]
-				for j := range o.Txs {
-					if j < len(amts) {
-						o.Txs[j].Amt = amts[j]
-					}
-				}
-				obs[i] = o
+				vals[i] = res.fields
+				sigOracle[i] = res.oracle
+				obs[i] = res.obs
 			}(i, r)
 		}
 		wg.Wait()
@@ -934,6 +1042,9 @@ func (o *output) compare(bi int, vals []map[string]string, oracle map[string]str
 		dg[fi] = make([]string, len(vals))
 		differ := false
 		for i := range vals {
+			if vals[i][f] == skipValue { // not observable on this replica for this block
+				vals[i][f] = vals[0][f]
+			}
 			dg[fi][i] = hexOf([]byte(vals[i][f]))
 			if vals[i][f] != vals[0][f] {
 				differ = true
